@@ -37,10 +37,21 @@ def finishBlock (n : Nat) (blockModule : Int) (blockDepth : Nat)
   match r with
   | .ok (some v) => pure v
   | .ok none => newNull
-  | .err e => handleException n blockModule blockDepth catches e
+  | .err e => do
+    let e ← loopSignalToException e
+    Model.tryCatch (handleException n blockModule blockDepth catches e) fun r =>
+      match r with
+      | .err e2 => do let e2 ← loopSignalToException e2; throwE e2
+      | r => liftRes r
   | .panic => goPanic
   | .fuel => outOfFuel
   | .unmodelled => notModelled
+
+theorem seg_congr {α β γ : Type} (P : M ν Unit) (X : M ν γ) (m : M ν α) (k1 k2 : Res α → M ν β)
+    (h : ∀ r, k1 r = k2 r) (s : VM ν) :
+    (P >>= fun _ => X >>= fun _ => Model.tryCatch m k1) s = (P >>= fun _ => X >>= fun _ => Model.tryCatch m k2) s := by
+  have : k1 = k2 := funext h
+  rw [this]
 
 /-- the part of `evalExecBlock` inside the scope bracket; `blockModule` / `blockDepth` are read from the state at entry -/
 def execBlockBody (n : Nat) (inputs : List Ident) (body : Option (List Stmt))
@@ -60,15 +71,35 @@ theorem evalExecBlock_eq (n : Nat) (inputs : List Ident) (body : Option (List St
   funext s
   unfold execBlockBody bindThis
   rw [bind_ok (rfl : getVM s = (.ok s, s))]
-  cases s.stack.head? with
-  | none => rfl
-  | some fr =>
-    simp only
-    by_cases hc : (fr.callType == 2) = true
-    · simp only [hc, if_true]
-      cases fr.this <;> rfl
-    · simp only [hc, if_false]
-      rfl
+  have hfin : ∀ (k : Res (Option Addr) → M ν Addr), (∀ r, k r = finishBlock n s.csModuleID s.stack.length catches r) →
+      ∀ (P : M ν Unit) (t : VM ν),
+      (P >>= fun _ => bindInputs inputs params >>= fun _ => Model.tryCatch (evalStmtBlock n body) k) t =
+      (P >>= fun _ => bindInputs inputs params >>= fun _ =>
+        Model.tryCatch (evalStmtBlock n body) (finishBlock n s.csModuleID s.stack.length catches)) t :=
+    fun k hk P t => seg_congr P _ _ _ _ hk t
+  by_cases hc : params.length ≠ inputs.length
+  · simp only [if_pos hc]
+    cases s.stack.head? with
+    | none => rfl
+    | some fr =>
+      simp only
+      by_cases hct : (fr.callType == 2) = true
+      · simp only [hct, if_true]
+        cases fr.this <;> rfl
+      · simp only [hct, if_false]
+        rfl
+  · simp only [if_neg hc]
+    cases s.stack.head? with
+    | none => exact hfin _ (by intro r; cases r <;> (try rfl) <;> (rename_i x; cases x <;> rfl)) (pure ()) s
+    | some fr =>
+      simp only
+      by_cases hct : (fr.callType == 2) = true
+      · simp only [hct, if_true]
+        cases fr.this with
+        | none => exact hfin _ (by intro r; cases r <;> (try rfl) <;> (rename_i x; cases x <;> rfl)) (pure ()) s
+        | some t => exact hfin _ (by intro r; cases r <;> (try rfl) <;> (rename_i x; cases x <;> rfl)) _ s
+      · simp only [hct, if_false]
+        exact hfin _ (by intro r; cases r <;> (try rfl) <;> (rename_i x; cases x <;> rfl)) (pure ()) s
 
 /-! ## pieces of `handleException` -/
 
